@@ -38,7 +38,12 @@ pub fn run(w: Arc<Walrus>, topics: &[String], threads: &[Vec<Op>], schedule: &[u
                 let invoked = verif::stamp();
                 note(&acklog, format!("s {} {}\n", tid, idx));
                 let resp = crate::exec::run_data_op(&w, &topics, op);
-                note(&acklog, format!("a {} {} {}\n", tid, idx, if matches!(resp, Resp::Err { .. }) { "err" } else { "ok" }));
+                let got = match &resp {
+                    Resp::Some(e) => format!(" {}:{}", e.len, e.hash),
+                    Resp::List(v) if !v.is_empty() => format!(" {}", v.iter().map(|e| format!("{}:{}", e.len, e.hash)).collect::<Vec<_>>().join(",")),
+                    _ => String::new(),
+                };
+                note(&acklog, format!("a {} {} {}{}\n", tid, idx, if matches!(resp, Resp::Err { .. }) { "err" } else { "ok" }, got));
                 let returned = verif::stamp();
                 results.lock().unwrap().push(ConcRes { thread: tid, idx, invoked, returned, resp });
                 // a scheduling point between operations
